@@ -4,9 +4,12 @@ mod astcheck;
 mod astsexp;
 mod devtools;
 mod exec;
+mod lua51check;
+mod luaucheck;
 mod progen;
 mod progen_c17;
 mod progen_c05;
+mod progen_c06;
 mod model;
 mod props;
 mod report;
@@ -27,6 +30,9 @@ fn main() {
     }
     if args[1] == "progtest" {
         std::process::exit(devtools::progtest(&args[2..]));
+    }
+    if args[1] == "progtest06" {
+        std::process::exit(devtools::progtest06(&args[2..]));
     }
     if args[1] == "astcheck" {
         // self-test of the shared AST codec (astsexp.rs <-> Shared/AstSexp.lean)
